@@ -20,6 +20,8 @@ MaxRuns == 6
 NoRunMon == [span |-> 0, spanEnds |-> 0, spanStatus |-> "",
              started |-> FALSE, stopped |-> 0, status |-> "", engineClosed |-> FALSE, descs |-> {},
              dmask |-> [s \in Streams |-> "none"], stale |-> {},
+             next |-> [s \in Streams |-> 1],      \* the seq_num the next event of the stream must carry
+             since |-> [s \in Streams |-> 0],     \* replayable events of the stream emitted since the last checkpoint-like point
              maxseq |-> [s \in Streams |-> 0], rewAtLast |-> [s \in Streams |-> 0], nev |-> [s \in Streams |-> 99],
              intrWant |-> 0]
 MonInitVal ==
@@ -125,14 +127,16 @@ UpdDoc(m, e) ==
        ELSE IF name = "event" THEN
             LET m1 == ViolIf(m, stream \notin r.descs, "C01:event-without-descriptor")
                 mx == r.maxseq[stream]
-                m2 == IF seq = mx + 1 THEN m1
-                      ELSE IF seq > mx + 1 \/ seq < 1 THEN Viol(m1, "C05:gap:" \o StreamClass(stream))
-                      ELSE \* seq <= max: a repeated seq_num -- only a re-taken bundled data point after a rewind
-                           IF StreamClass(stream) = "bundle" /\ r.rewAtLast[stream] < m.rew THEN m1
-                           ELSE Viol(m1, "C05:duplicate-seq:" \o StreamClass(stream))
+                \* exactly the expected seq_num: one more than the previous one, or -- after a rewind -- the first of the
+                \* data points emitted since the last checkpoint (they are re-taken); never-replayed streams only count up
+                m2 == IF seq = r.next[stream] THEN m1
+                      ELSE IF seq > r.next[stream] \/ seq < 1 THEN Viol(m1, "C05:gap:" \o StreamClass(stream))
+                      ELSE Viol(m1, "C05:duplicate-seq:" \o StreamClass(stream))
                 m3 == ViolIf(m2, stream \in r.stale, "C16:event-references-old-descriptor")
                 m4 == IF StreamClass(stream) = "bundle" /\ m.curRun \in RunKeys THEN [m3 EXCEPT !.gotEvent = TRUE] ELSE m3
-            IN [m4 EXCEPT !.runs[ord].maxseq[stream] = IF seq > mx THEN seq ELSE (IF seq >= 1 THEN seq ELSE mx),
+            IN [m4 EXCEPT !.runs[ord].maxseq[stream] = IF seq > mx THEN seq ELSE mx,
+                          !.runs[ord].next[stream] = seq + 1,
+                          !.runs[ord].since[stream] = IF StreamClass(stream) = "bundle" /\ m.rewFlag /\ m.ckpt THEN @ + 1 ELSE @,
                           !.runs[ord].rewAtLast[stream] = m.rew]
        ELSE IF name = "stop" THEN
             [m EXCEPT !.runs[ord].stopped = 1, !.runs[ord].status = status,
@@ -175,6 +179,14 @@ UpdDev(m, e) ==
               ViolIf(m, e[6] > 0 /\ (m.pausedNow \/ m.suspWait), IF m.pausedNow THEN "C41:update-while-paused" ELSE "C41:update-while-suspended")
          [] OTHER -> m
 
+\* checkpoint-like point: nothing emitted so far will be re-taken
+SinceReset(m) == [m EXCEPT !.runs = [o \in 1..MaxRuns |-> [m.runs[o] EXCEPT !.since = [sn \in Streams |-> 0]]]]
+\* a rewind: the replayable data points emitted since the last checkpoint-like point are re-taken under the same seq_nums
+SeqRewind(m) == [m EXCEPT !.runs = [o \in 1..MaxRuns |-> IF m.runs[o].started /\ m.runs[o].stopped = 0
+                                   THEN [m.runs[o] EXCEPT !.next = [sn \in Streams |-> m.runs[o].next[sn] - m.runs[o].since[sn]],
+                                                          !.since = [sn \in Streams |-> 0]]
+                                   ELSE m.runs[o]]]
+
 \* messages: replay bookkeeping (C04), deferred pause (C09), suspension (C11)
 UpdMsg(m0, e) ==
   LET cmd == e[2] a == e[5] mid == e[6] obj == e[3] run == e[4]
@@ -211,13 +223,13 @@ UpdMsg(m0, e) ==
                  ViolIf(m, mid <= m.maxMid /\ mid > 0 /\ ~m.c04off, "C04:unexpected-replay")
       \* a fresh (not replayed) identity while something is still expected is caught above
       m2 == IF cmd = "rewindable" /\ a # "" THEN
-               (IF (a = "T") # m1.rewFlag /\ m1.ckpt THEN [m1 EXCEPT !.rewFlag = (a = "T"), !.since = <<>>] ELSE [m1 EXCEPT !.rewFlag = (a = "T")])
-            ELSE IF cmd = "clear_checkpoint" THEN [m1 EXCEPT !.ckpt = FALSE, !.since = <<>>]
+               (IF (a = "T") # m1.rewFlag /\ m1.ckpt THEN SinceReset([m1 EXCEPT !.rewFlag = (a = "T"), !.since = <<>>]) ELSE [m1 EXCEPT !.rewFlag = (a = "T")])
+            ELSE IF cmd = "clear_checkpoint" THEN SinceReset([m1 EXCEPT !.ckpt = FALSE, !.since = <<>>])
             ELSE IF cmd = "checkpoint" /\ (\E k \in RunKeys : m1.keyOrd[k] # 0 /\ m1.bundle[k].open)
                  THEN \* rejected (C15): not a checkpoint; the attempt itself is part of what was executed since the last one
                       (IF m1.rewFlag /\ m1.ckpt THEN [m1 EXCEPT !.since = Append(@, mid)] ELSE m1)
-            ELSE IF cmd = "checkpoint" THEN [m1 EXCEPT !.ckpt = TRUE, !.since = <<>>, !.deferCkpt = m1.deferPending]
-            ELSE IF cmd \in ImplicitCkptCmds THEN [m1 EXCEPT !.since = <<>>]
+            ELSE IF cmd = "checkpoint" THEN SinceReset([m1 EXCEPT !.ckpt = TRUE, !.since = <<>>, !.deferCkpt = m1.deferPending])
+            ELSE IF cmd \in ImplicitCkptCmds THEN SinceReset([m1 EXCEPT !.since = <<>>])
             ELSE IF cmd \in Uncacheable \/ ~m1.rewFlag \/ ~m1.ckpt THEN m1
             ELSE [m1 EXCEPT !.since = Append(@, mid)]
       \* C09: after the checkpoint that consumes a deferred pause no further message may be executed before the pause
@@ -229,7 +241,7 @@ UpdMsg(m0, e) ==
              IF cmd = "_resume_from_suspender" THEN [m3 EXCEPT !.suspWait = FALSE] ELSE m3
       \* a suspension starts: the engine rewinds; what was executed since the last checkpoint is replayed after the release
       m4 == IF cmd = "_start_suspender" /\ m4a.ckpt
-            THEN [m4a EXCEPT !.bundle = [k \in RunKeys |-> [m4a.bundle[k] EXCEPT !.open = FALSE]], !.rew = @ + 1, !.expect = m4a.since \o m4a.expect, !.replaying = (m4a.since \o m4a.expect # <<>>), !.since = <<>>]
+            THEN [SeqRewind(m4a) EXCEPT !.bundle = [k \in RunKeys |-> [m4a.bundle[k] EXCEPT !.open = FALSE]], !.rew = @ + 1, !.expect = m4a.since \o m4a.expect, !.replaying = (m4a.since \o m4a.expect # <<>>), !.since = <<>>]
             ELSE m4a
       \* a pause requested by the plan itself (Msg('pause')): same bookkeeping as an external request
       m4p == IF cmd = "pause" /\ m4.st = "running"
@@ -445,7 +457,7 @@ UpdCall(m, e, s) ==
   ELSE LET rec == [kind |-> "call:" \o op, pc |-> Where(m), st |-> m.st, res |-> m.ckpt, out |-> "", after |-> m.lastCmd]
            m1 == [m EXCEPT !.reqs = Append(@, rec)]
        IN IF op = "resume" THEN [m1 EXCEPT !.runs = [o \in 1..MaxRuns |-> IF m1.runs[o].started /\ m1.runs[o].stopped = 0 /\ m1.recIntr
-                                                                          THEN [m1.runs[o] EXCEPT !.intrWant = @ + 1] ELSE m1.runs[o]],
+                                                                          THEN [SeqRewind(m1).runs[o] EXCEPT !.intrWant = @ + 1] ELSE SeqRewind(m1).runs[o]],
                                          !.bundle = [k \in RunKeys |-> [m1.bundle[k] EXCEPT !.open = FALSE]],
                                          !.rew = @ + 1, !.expect = m.since \o m.expect, !.replaying = (m.since \o m.expect # <<>>), !.since = <<>>]
           ELSE [m1 EXCEPT !.term = @ \cup {op}]
